@@ -246,7 +246,7 @@ fn switch_from(me: usize, site: &'static str, payload: u64, blocked: bool) {
         s.consecutive_blocked = 0;
     }
     let live = s.threads.iter().filter(|t| **t != St::Done).count() as u64;
-    if s.consecutive_blocked > 4000 * live.max(1) {
+    if s.consecutive_blocked > 250 * live.max(1) {
         let desc: Vec<String> = s
             .threads
             .iter()
@@ -316,7 +316,12 @@ pub fn lock_probe(site: &'static str, probe: &mut dyn FnMut() -> bool) {
 
 pub fn stall(site: &'static str) -> bool {
     let Some(me) = my_id() else { return false };
-    if failure().is_some() {
+    if let Some(f) = failure() {
+        if site == "db_drop_wait" {
+            // fjall's drop loop would spin (and eventually block in a channel send) forever;
+            // unwind out of it so that the run can be reported
+            panic!("fjsim: abandoned Database drop wait loop: {f}");
+        }
         return false;
     }
     switch_from(me, site, 0, true);
